@@ -858,7 +858,7 @@ func instrumentLocks(scratch string) map[string]string {
 		}
 		src, err := os.ReadFile(path)
 		if err != nil || !(bytes.Contains(src, []byte(".Lock()")) || bytes.Contains(src, []byte(".RLock()")) ||
-			bytes.Contains(src, []byte(".View(")) || bytes.Contains(src, []byte(".Update(")) || bytes.Contains(src, []byte(".NewTransaction("))) {
+			bytes.Contains(src, []byte(".View(")) || bytes.Contains(src, []byte(".Update(")) || bytes.Contains(src, []byte(".NewTransaction(")) || bytes.Contains(src, []byte(".Commit()"))) {
 			return nil
 		}
 		fset := token.NewFileSet()
@@ -900,7 +900,17 @@ func instrumentLocks(scratch string) map[string]string {
 				if tc, ok := top.(*ast.CallExpr); ok {
 					if sel, ok := tc.Fun.(*ast.SelectorExpr); ok && (sel.Sel.Name == "View" || sel.Sel.Name == "Update" || sel.Sel.Name == "NewTransaction") {
 						line := fset.Position(tc.Lparen).Line
-						edits = append(edits, ins{fset.Position(st.Pos()).Offset, fmt.Sprintf("verifhook.Point(%q); ", fmt.Sprintf("txn:%s:%d", filepath.Base(path), line))})
+						text := fmt.Sprintf("verifhook.Point(%q); ", fmt.Sprintf("txn:%s:%d", filepath.Base(path), line))
+						if sel.Sel.Name == "Update" {
+							// an Update commits when its closure returns: crash candidate before it
+							text += fmt.Sprintf("verifhook.Point(%q); ", fmt.Sprintf("commit:%s:%d", filepath.Base(path), line))
+						}
+						edits = append(edits, ins{fset.Position(st.Pos()).Offset, text})
+						continue
+					}
+					if sel, ok := tc.Fun.(*ast.SelectorExpr); ok && sel.Sel.Name == "Commit" && len(tc.Args) == 0 {
+						line := fset.Position(tc.Lparen).Line
+						edits = append(edits, ins{fset.Position(st.Pos()).Offset, fmt.Sprintf("verifhook.Point(%q); ", fmt.Sprintf("commit:%s:%d", filepath.Base(path), line))})
 						continue
 					}
 				}
